@@ -48,13 +48,15 @@ const (
 	kUserGo               // hand-written .go file (e.g. custom typeref)
 	kOther                // arbitrary user file
 	kEmptyDir
-	kDir         // nested dir (children follow)
-	kLinkGen     // symlink named like a generated file pointing at a user file elsewhere
-	kDirNamedGen // directory whose name ends in .gr.go
+	kDir              // nested dir (children follow)
+	kLinkGen          // symlink named like a generated file pointing at a user file elsewhere
+	kDirNamedGen      // directory whose name ends in .gr.go
+	kDirNamedManifest // directory named like the generator's manifest
+	kLinkDir          // symlink to a directory outside the target that holds generated-looking files and a manifest
 	nKinds
 )
 
-var kindName = [...]string{"gen", "manifest", "usergo", "other", "emptydir", "dir", "linkgen", "dirnamedgen"}
+var kindName = [...]string{"gen", "manifest", "usergo", "other", "emptydir", "dir", "linkgen", "dirnamedgen", "dirnamedmanifest", "linkdir"}
 
 type node struct {
 	Kind     kind
@@ -62,7 +64,7 @@ type node struct {
 }
 
 func (n *node) String() string {
-	if n.Kind == kDir || n.Kind == kDirNamedGen {
+	if n.Kind == kDir || n.Kind == kDirNamedGen || n.Kind == kDirNamedManifest {
 		var c []string
 		for _, x := range n.Children {
 			c = append(c, x.String())
@@ -106,11 +108,11 @@ func randomList(rng *rand.Rand, depth int) []*node {
 	var out []*node
 	for i := 0; i < n; i++ {
 		k := kind(rng.Intn(int(nKinds)))
-		if (k == kDir || k == kDirNamedGen) && depth == 0 {
+		if (k == kDir || k == kDirNamedGen || k == kDirNamedManifest) && depth == 0 {
 			k = kEmptyDir
 		}
 		nd := &node{Kind: k}
-		if k == kDir || k == kDirNamedGen {
+		if k == kDir || k == kDirNamedGen || k == kDirNamedManifest {
 			nd.Children = randomList(rng, depth-1)
 			if len(nd.Children) == 0 && k == kDir {
 				nd.Kind = kEmptyDir
@@ -123,10 +125,11 @@ func randomList(rng *rand.Rand, depth int) []*node {
 
 // materialise writes the tree; returns relative paths by class.
 type built struct {
-	owned     map[string]bool // files the generator owns
-	user      map[string]bool // files it does not own (incl. symlink targets)
-	dirs      map[string]bool
-	emptyDirs map[string]bool // pre-existing empty directories
+	owned        map[string]bool // files the generator owns
+	user         map[string]bool // files it does not own (incl. symlink targets)
+	dirs         map[string]bool
+	emptyDirs    map[string]bool // pre-existing empty directories
+	manifestDirs int             // directories named like the manifest
 }
 
 func materialise(g generation, root string, children []*node, b *built, rel string, outside string) {
@@ -138,7 +141,7 @@ func materialise(g generation, root string, children []*node, b *built, rel stri
 			b.owned[p] = true
 		case kManifest:
 			p := filepath.Join(rel, g.manifest)
-			if b.owned[p] {
+			if b.owned[p] || b.dirs[p] {
 				continue
 			}
 			must(os.WriteFile(filepath.Join(root, p), []byte(`{"m":1}`), 0o444))
@@ -158,10 +161,24 @@ func materialise(g generation, root string, children []*node, b *built, rel stri
 			must(os.Mkdir(filepath.Join(root, p), 0o755))
 			b.dirs[p] = true
 			b.emptyDirs[p] = true
-		case kDir, kDirNamedGen:
-			p := filepath.Join(rel, fmt.Sprintf("d%d", i))
+		case kLinkDir:
+			// the user's link to another output directory: neither the link nor anything behind it is the generator's
+			p := filepath.Join(rel, fmt.Sprintf("linked%d", i))
+			must(os.Symlink(filepath.Join(filepath.Dir(outside), "outside-dir"), filepath.Join(root, p)))
+			b.user[p] = true
+		case kDir, kDirNamedGen, kDirNamedManifest:
+			// package directories may carry any name the generator or a user gives them ("internal" namespaces are written
+			// to "_internal")
+			p := filepath.Join(rel, fmt.Sprintf([]string{"d%d", "_internal%d", ".dot%d", "d%d"}[(i+len(rel))%4], i))
 			if c.Kind == kDirNamedGen {
 				p = filepath.Join(rel, fmt.Sprintf("pkg%d%s", i, g.suffix))
+			}
+			if c.Kind == kDirNamedManifest {
+				p = filepath.Join(rel, g.manifest)
+				if _, err := os.Lstat(filepath.Join(root, p)); err == nil {
+					continue
+				}
+				b.manifestDirs++
 			}
 			must(os.Mkdir(filepath.Join(root, p), 0o755))
 			b.dirs[p] = true
@@ -251,6 +268,16 @@ func checkClean(run *ev.Run, g generation, children []*node, target string, scra
 	defer func() { _ = exec.Command("chmod", "-R", "u+w", base).Run(); os.RemoveAll(base) }()
 	outside := filepath.Join(base, "outside-user-file.txt")
 	must(os.WriteFile(outside, []byte("outside"), 0o644))
+	outsideDir := filepath.Join(base, "outside-dir")
+	must(os.MkdirAll(filepath.Join(outsideDir, "pkg"), 0o755))
+	for _, f := range []string{"Other" + g.suffix, g.manifest, "keep.txt", filepath.Join("pkg", "Deep"+g.suffix)} {
+		must(os.WriteFile(filepath.Join(outsideDir, f), []byte("another run's "+f), 0o444))
+	}
+	outsideBefore := map[string]fingerprint{}
+	of, od := listAll(outsideDir)
+	for _, f := range append(of, od...) {
+		outsideBefore[f], _ = fp(filepath.Join(outsideDir, f))
+	}
 	root := filepath.Join(base, "target")
 	desc := caseDesc{g.name, "[" + joinNodes(children) + "]", target}
 	if target == "missing" {
@@ -278,14 +305,36 @@ func checkClean(run *ev.Run, g generation, children []*node, target string, scra
 		arg = "."
 		defer os.Chdir(cwd)
 	}
+	outsideIntact := func() {
+		if now, ok := fp(outside); !ok || now != outsideFp {
+			run.Violation(g.name+"/clean/symlink-target-touched", map[string]any{"case": desc})
+		}
+		for f, was := range outsideBefore {
+			if now, ok := fp(filepath.Join(outsideDir, f)); !ok || now != was {
+				run.Violation(g.name+"/clean/reached-outside-the-target-through-a-link", map[string]any{"case": desc, "entry": f, "still_there": ok})
+				return
+			}
+		}
+	}
 	if err := g.clean(arg); err != nil {
+		if b.manifestDirs > 0 {
+			// a directory where the manifest file would be: refusing to go on is acceptable, touching what is not the
+			// generator's is not
+			run.Count("observed_only.clean_error_with_manifest_named_directory", 1)
+			for f, was := range before {
+				if now, ok := fp(filepath.Join(root, f)); !ok || now != was {
+					run.Violation(g.name+"/clean/user-file-touched-by-failed-clean", map[string]any{"case": desc, "file": f, "still_there": ok, "error": err.Error()})
+					break
+				}
+			}
+			outsideIntact()
+			return
+		}
 		run.Violation(g.name+"/clean/error", map[string]any{"case": desc, "error": err.Error()})
 		return
 	}
 	judgeAfterClean(run, g, desc, root, b, before, target == "dot", "clean")
-	if now, ok := fp(outside); !ok || now != outsideFp {
-		run.Violation(g.name+"/clean/symlink-target-touched", map[string]any{"case": desc})
-	}
+	outsideIntact()
 	// idempotence
 	if _, err := os.Lstat(root); err == nil {
 		f1, d1 := listAll(root)
